@@ -1046,9 +1046,17 @@ impl<'a> CompactionIterator<'a> {
 
 		// Check if latest version is DELETE at bottom level
 		// If so, we can completely remove this key from the database
-		let latest_is_delete_at_bottom = self.is_bottom_level
-			&& !self.accumulated_versions.is_empty()
-			&& self.accumulated_versions[0].0.is_hard_delete_marker();
+		// Exception: a snapshot older than that DELETE may still need the versions
+		// below it. Those versions then have to be kept, and so does the DELETE
+		// itself - otherwise they would become visible again to newer readers.
+		let latest_delete_seq = match self.accumulated_versions.first() {
+			Some((key, _)) if key.is_hard_delete_marker() => Some(key.seq_num()),
+			_ => None,
+		};
+		let delete_hidden_from_a_snapshot = latest_delete_seq
+			.is_some_and(|delete_seq| self.snapshots.first().is_some_and(|&oldest| oldest < delete_seq));
+		let drop_latest_delete = self.is_bottom_level && !delete_hidden_from_a_snapshot;
+		let latest_is_delete_at_bottom = drop_latest_delete && latest_delete_seq.is_some();
 
 		// Check if any version is REPLACE
 		// REPLACE semantics: delete all older versions regardless of retention
@@ -1125,11 +1133,12 @@ impl<'a> CompactionIterator<'a> {
 			} else if is_latest && !is_hard_delete && !is_replace {
 				// Latest PUT: never stale (will be output)
 				false
-			} else if is_latest && is_hard_delete && self.is_bottom_level {
+			} else if is_latest && is_hard_delete && drop_latest_delete {
 				// Latest DELETE at bottom: stale (won't be output)
 				true
-			} else if is_latest && is_hard_delete && !self.is_bottom_level {
-				// Latest DELETE at non-bottom: not stale (tombstone preserved)
+			} else if is_latest && is_hard_delete && !drop_latest_delete {
+				// Latest DELETE at non-bottom (or still hiding versions that an
+				// older snapshot needs): not stale (tombstone preserved)
 				false
 			} else if is_latest && is_replace {
 				// Latest REPLACE: not stale (will be output)
